@@ -1,0 +1,10 @@
+//go:build verif
+
+package catalog
+
+// Verification hooks (build tag "verif"): exports of unexported functions.
+// Nothing here is compiled into a normal build.
+
+func VerifTagName(title string) string { return string(tagName(title)) }
+
+func VerifPathTagTitle(path string) string { return pathTagTitle(path) }
